@@ -509,7 +509,7 @@ func trackerStatusSpace() *space[api.TrackerStatus] {
 	all := append([]api.TrackerStatus{api.TrackerStatusUndefined}, singleStatuses...)
 	all = append(all, api.TrackerStatusError, api.TrackerStatusQueued)
 	return &space[api.TrackerStatus]{typ: "TrackerStatus", fields: []fa[api.TrackerStatus]{
-		{"value", len(all), func(p *api.TrackerStatus, i int) { *p = all[i] }},
+		{name: "value", n: len(all), set: func(p *api.TrackerStatus, i int) { *p = all[i] }},
 	}}
 }
 
@@ -572,7 +572,7 @@ func logOpSpace() *space[craft.LogOp] {
 			pinVecs = append(pinVecs, v)
 		}
 	}
-	return &space[craft.LogOp]{typ: "LogOp", fields: []fa[craft.LogOp]{
+	return &space[craft.LogOp]{typ: "LogOp", subs: map[string]func(int) string{"Cid": func(i int) string { return ps.mask(pinVecs[i]) }}, fields: []fa[craft.LogOp]{
 		{"Type", 2, func(o *craft.LogOp, i int) { o.Type = []craft.LogOpType{craft.LogOpPin, craft.LogOpUnpin}[i] }},
 		{"Cid", len(pinVecs), func(o *craft.LogOp, i int) { o.Cid = ps.build(pinVecs[i]) }},
 		{"SpanCtx", 2, func(o *craft.LogOp, i int) {
